@@ -181,7 +181,12 @@ def VL.toList : VL → List Val
   | .nil => []
   | .cons h t => h :: t.toList
 
-def q (s : Str) : String := "\"" ++ String.ofList s ++ "\""
+/-- strings as the harness prints them: a blank as \u0020, a line break as \n. -/
+def qEsc : Str → Str
+  | [] => []
+  | c :: cs => if c = ' ' then "\\u0020".toList ++ qEsc cs else if c = '\n' then "\\n".toList ++ qEsc cs else c :: qEsc cs
+
+def q (s : Str) : String := "\"" ++ String.ofList (qEsc s) ++ "\""
 
 partial def printTree : J → String
   | .null => "null"
@@ -499,6 +504,75 @@ def runMunm (r : Report) (s : Section) (l : Line) (fs : Fields) (bits : Nat) (j 
     if inScope j then
       r := stdMonitor r s l fs j "MYB" "yaml-bytes"
       if g "MTB" ≠ "skip" then r := stdMonitor r s l fs j "MTB" "toml-bytes"
+  return r
+
+def JM.snoc : JM → Str → J → JM
+  | .nil, k, v => .cons k v .nil
+  | .cons a b t, k, v => .cons a b (t.snoc k v)
+
+/-- the value of the last key `cert` of a `cc` op by block style. -/
+def certOf (blk : String) : Option Str :=
+  match blk with
+  | "1" => some "l1\nl2\n".toList | "2" => some "l1\nl2".toList | "3" => some "l1\nl2\n".toList
+  | "4" => some "l1 l2\n".toList | "5" => some "l1\nl2\n".toList
+  | _ => none
+
+/-- `cc`: the config center (`configCenter.genValue`, model `ccValue`) next to the loaders on THE SAME BYTES, over
+renderings that differ in insignificant white space (`ws`) and in the YAML style of the last string (`blk`). -/
+def runCc (r : Report) (s : Section) (l : Line) (fs : Fields) (ws blk : String) (j0 : J) : Report := Id.run do
+  let mut r := r
+  let oc : Opts := { confOpts with env := envOfTy (.struct fs) }
+  let j : J := match j0, certOf blk with
+    | .obj m, some c => .obj (m.snoc "cert".toList (.str c))
+    | _, _ => j0
+  let im := tyInModel (.struct fs)
+  let g (k : String) : String := (obs? l.obs k).getD "?"
+  r := r.addCover s!"cc-whitespace-{ws}"
+  r := r.addCover s!"cc-block-scalar-{blk}"
+  let run (f : Fmt) : String :=
+    match f with
+    | .json => eitherF32 (fun o => printRes (loadJsonO o fs j)) oc (obs? l.obs "LJ")
+    | .yaml => eitherF32 (fun o => printRes (loadYamlO o fs (embY j))) oc (obs? l.obs "LY")
+    | .toml => eitherF32 (fun o => tomlFront j (fun t => printRes (loadTomlO o fs t))) oc (obs? l.obs "LT")
+  -- the loaders on an empty value: JSON and YAML reject it, TOML reads the empty table
+  let lModel (f : Fmt) : String :=
+    if ws = "5" then
+      (match f with | .toml => eitherF32 (fun o => printRes (loadJsonO o fs (.obj .nil))) oc (obs? l.obs "LT") | _ => "err")
+    else run f
+  -- `ccValue`: unknown Type / empty value => error, else the loader of the Type on exactly these bytes
+  let cModel (f : Fmt) : String :=
+    if ws = "5" then "err" else let x := run f; if x = "skip" then x else x
+  let coll := !(noCaseCollision j)
+  let ck (r : Report) (key model : String) : Report := if coll then r.addCover "cc-collision-unchecked" else checkTokM im r s l key model
+  r := ck r "LJ" (lModel .json)
+  r := ck r "LY" (lModel .yaml)
+  r := ck r "LT" (if ws = "5" ∧ tomlFront j (fun _ => "x") = "skip" then "skip" else lModel .toml)
+  r := ck r "CJ" (cModel .json)
+  r := ck r "CY" (cModel .yaml)
+  r := ck r "CT" (if tomlFront j (fun _ => "x") = "skip" then "skip" else cModel .toml)
+  r := checkTok r s l "CX" "err"
+  r := aliasMonitor r s l
+  r := r.addCover ("cc-" ++ classOf (g "CJ"))
+  -- monitor, on the implementation's observations only
+  if l.obs.any (fun t => t.endsWith "=panic") then
+    r := r.violation s.idx l.idx s!"loader-panicked class=panic at=configcenter obs=[{joinSp (l.obs.filter fun t => t.endsWith "=panic")}]"
+  if (g "CX").startsWith "ok:" then
+    r := r.violation s.idx l.idx s!"unknown-type-accepted class=caller at=configcenter CX=[{g "CX"}]"
+  if ws = "5" then
+    if [g "CJ", g "CY", g "CT"].any (fun x => x.startsWith "ok:") then
+      r := r.violation s.idx l.idx s!"empty-value-accepted class=caller at=configcenter CJ=[{g "CJ"}] CY=[{g "CY"}] CT=[{g "CT"}]"
+  else
+    -- the caller adds nothing: its value is the loader's value on the same bytes
+    if g "CJ" ≠ g "LJ" ∨ g "CY" ≠ g "LY" ∨ g "CT" ≠ g "LT" then
+      r := r.violation s.idx l.idx s!"configcenter-differs-from-loader class=caller ws={ws} blk={blk} LJ=[{g "LJ"}] CJ=[{g "CJ"}] LY=[{g "LY"}] CY=[{g "CY"}] LT=[{g "LT"}] CT=[{g "CT"}]: the config center's value for (Type, bytes) is not the value of the Type's loader on these bytes"
+    if inScope j ∧ ¬ coll then
+      r := r.addCover "cc-format-independence-checked"
+      let t := g "LT"
+      if g "LJ" ≠ g "LY" ∨ (t ≠ "skip" ∧ g "LJ" ≠ t) then
+        r := r.violation s.idx l.idx s!"format-dependent class=format-whitespace ws={ws} blk={blk} LJ=[{g "LJ"}] LY=[{g "LY"}] LT=[{t}] doc=[{printTree j}]"
+      let ct := g "CT"
+      if g "CJ" ≠ g "CY" ∨ (ct ≠ "skip" ∧ g "CJ" ≠ ct) then
+        r := r.violation s.idx l.idx s!"format-dependent class=configcenter ws={ws} blk={blk} CJ=[{g "CJ"}] CY=[{g "CY"}] CT=[{ct}] doc=[{printTree j}]"
   return r
 
 def bitsOfTok (t : String) : Option Nat :=
@@ -863,6 +937,10 @@ def runSection (r : Report) (s : Section) : Report := Id.run do
         else r := r.mismatch s.idx l.idx "bad-op" (joinSp l.op)
       | none => r := r.mismatch s.idx l.idx "bad-doc" d
     | ["rd", slot] => r := runRd r s l st slot
+    | ["cc", _, ws, blk, _, d] =>
+      match st.fs, parseDocTok d with
+      | some fs, some j => r := runCc r s l fs ws blk j
+      | _, _ => r := r.mismatch s.idx l.idx "bad-cc" d
     | "pload" :: workers :: _ :: _ :: ds =>
       match st.fs with
       | none => if joinSp l.obs ≠ "no-type" then r := r.mismatch s.idx l.idx "no-type" (joinSp l.obs)
